@@ -812,6 +812,10 @@ enum TxK {
     BadHopSig,
     /// outputs that sum above 2^64
     HugeOut,
+    /// Bound-typed (NFT transfer shape: inputs Bound, Normal, Bound owned by the signer) with only n outputs
+    BoundShort(usize),
+    /// Bound-typed with a single Normal input (NFT creation shape) and only n outputs
+    BoundNewShort(usize),
 }
 #[derive(Clone, Debug, PartialEq)]
 enum GcK {
@@ -1061,6 +1065,37 @@ impl World {
                 t
             }
             TxK::SelfHop | TxK::BadHopSig => funded(&slip),
+            TxK::BoundShort(n_out) | TxK::BoundNewShort(n_out) => {
+                let mut t = Transaction::default();
+                t.transaction_type = TransactionType::Bound;
+                t.timestamp = ts;
+                let base = slip.clone().unwrap_or_else(|| {
+                    let mut d = Slip::default();
+                    d.public_key = pk_a;
+                    d.amount = 1000;
+                    d.block_id = 1;
+                    d
+                });
+                let shapes: Vec<SlipType> = if let TxK::BoundShort(_) = k { vec![SlipType::Bound, SlipType::Normal, SlipType::Bound] } else { vec![SlipType::Normal] };
+                for (j, ty) in shapes.iter().enumerate() {
+                    let mut i = base.clone();
+                    i.slip_type = *ty;
+                    i.slip_index = base.slip_index.wrapping_add(j as u8);
+                    if *ty == SlipType::Bound {
+                        i.amount = 0;
+                    }
+                    i.generate_utxoset_key();
+                    t.add_from_slip(i);
+                }
+                for _ in 0..*n_out {
+                    let mut o = Slip::default();
+                    o.public_key = pk_a;
+                    o.amount = base.amount / 4;
+                    t.add_to_slip(o);
+                }
+                t.sign(&sk_a);
+                t
+            }
             TxK::HugeOut => {
                 let mut t = match &slip {
                     Some(s) => make_tx(&[s.clone()], &[(pk_a, u64::MAX - 5), (pk_a, s.amount + 6)], &sk_a, ts),
@@ -1993,6 +2028,28 @@ impl Runner {
                 // validity is the consensus model's business); for the other kinds the model predicts it
                 let before = self.inv_count(f.idx).await;
                 let r = self.attack_event(f.idx, ev, kind.clone(), false).await;
+                if let (ServeK::Fail, Ok(_)) = (k, &r) {
+                    // BlockchainSyncState::mark_as_failed releases the entry: within a few scheduling rounds the same
+                    // block is asked for again from the same peer (500 retries are allowed), unless it arrived meanwhile
+                    let applies = {
+                        let peers = self.w.n.peers.read().await;
+                        let bc = self.w.n.blockchain.read().await;
+                        peers.index_to_peers.get(&f.idx).map(|p| !p.block_fetch_url.is_empty()).unwrap_or(false) && !bc.is_block_indexed(f.hash)
+                    };
+                    if applies {
+                        for _ in 0..3 {
+                            self.w.n_timer(2000, true).await?;
+                            self.w.pump().await?;
+                        }
+                        let known_now = self.w.n.blockchain.read().await.is_block_indexed(f.hash);
+                        if !known_now && !self.w.pending_fetches.iter().any(|x| x.hash == f.hash && x.idx == f.idx) {
+                            self.limiter_failures.push(format!(
+                                "the fetch of block id {} from connection {} was reported failed and the block was not asked for again within three scheduling rounds (failed fetches must be released and retried)",
+                                f.id, f.idx
+                            ));
+                        }
+                    }
+                }
                 let after = self.inv_count(f.idx).await;
                 if kind == "EFetched FAnnounced" {
                     if let Some(last) = self.w.trace.last_mut() {
@@ -2411,6 +2468,15 @@ fn scripted(seed: u64) -> Vec<CaseSpec> {
     v.push(base_spec("every-crafted-block-on-the-tip", seed, a));
     // two announcing peers that never serve: the fetch quota (10 in flight) is per peer
     v.push(base_spec("two-announcers", seed, cat(vec![vec![Act::HConnect], handshake(2, 0), handshake(3, 0), vec![Act::AFlood(2, Msg::HeaderHash(HashK::Random, IdK::TipPlus1), 20), Act::AFlood(3, Msg::HeaderHash(HashK::Random, IdK::TipPlus1), 5), Act::Tick(2100), Act::AMsg(3, Msg::HeaderHash(HashK::Random, IdK::TipPlus1)), Act::AMsg(2, Msg::Ping), Act::AAnnounceUnknown(3, IdK::TipPlus1), Act::Tick(2100), Act::HBlock(false)]])));
+    // Bound-typed transactions with short output lists (NFT branches of Transaction::validate)
+    let mut a = cat(vec![vec![Act::HConnect], handshake(2, 0)]);
+    for k in [TxK::BoundShort(0), TxK::BoundShort(1), TxK::BoundShort(2), TxK::BoundNewShort(0), TxK::BoundNewShort(1), TxK::BoundNewShort(2), TxK::TypedFunded(8), TxK::TypedNoInputs(8)] {
+        a.push(Act::AMsg(2, Msg::Tx(k)));
+    }
+    a.push(Act::Tick(1000));
+    v.push(base_spec("bound-short-outputs", seed, a));
+    // failed fetches are retried: the entry must be released and asked for again
+    v.push(base_spec("fetch-failed-is-retried", seed, cat(vec![vec![Act::HConnect], handshake(3, 0), vec![Act::AAnnounceUnknown(3, IdK::TipPlus1), Act::AServe(ServeK::Fail), Act::AAnnounceUnknown(3, IdK::Far), Act::AServe(ServeK::Fail), Act::AServe(ServeK::Fail), Act::Tick(2100), Act::AMsg(3, Msg::Ping)]])));
     // key change on an authenticated entry (listed under C17)
     v.push(base_spec("key-change", seed, cat(vec![handshake(2, 0), vec![Act::AMsg(2, Msg::Challenge), Act::AMsg(2, Msg::Response(RespK::Valid(1)))]])));
     // 10: unsolicited ghost chain on a full node
@@ -2485,7 +2551,10 @@ fn random_msg(rng: &mut Rng) -> Msg {
                 53..=57 => TxK::TypedNoInputs(*rng.pick(&[1u8, 3, 5, 6])),
                 58..=64 => TxK::TypedNoInputs(*rng.pick(&[4u8, 7, 8, 0])),
                 65..=84 => TxK::TypedFunded(*rng.pick(&[1u8, 3, 4, 5, 6, 7, 8])),
-                85..=89 => TxK::SelfHop,
+                85..=86 => TxK::SelfHop,
+                87 => TxK::BoundShort(rng.below(3) as usize),
+                88 => TxK::BoundNewShort(rng.below(3) as usize),
+                89 => TxK::BoundShort(1 + rng.below(2) as usize),
                 90..=94 => TxK::BadHopSig,
                 _ => TxK::HugeOut,
             };
